@@ -7,6 +7,7 @@ import (
 	"bytes"
 	"encoding/binary"
 	"io"
+	"sync"
 	"time"
 
 	"github.com/hashicorp/raft"
@@ -22,6 +23,7 @@ type Ent struct {
 }
 
 type Pool struct {
+	mu     sync.Mutex
 	Seed   int64
 	byKey  map[[2]uint64]Ent // (idx,cid) -> Ent
 	Binary bool              // BinaryCodec: all raft.Log fields populated
@@ -74,7 +76,9 @@ var baseTime = time.Date(2024, 5, 6, 7, 8, 9, 123456789, time.UTC)
 
 // Log builds the raft.Log submitted for an entry and remembers it.
 func (p *Pool) Log(e Ent) *raft.Log {
+	p.mu.Lock()
 	p.byKey[[2]uint64{e.Idx, uint64(e.Cid)}] = e
+	p.mu.Unlock()
 	return p.build(e)
 }
 
@@ -99,7 +103,9 @@ func (p *Pool) Identify(idx uint64, l *raft.Log) int {
 	}
 	gotIdx := uint64(d[1]) | uint64(d[2])<<8 | uint64(d[3])<<16
 	cid := int(binary.LittleEndian.Uint32(d[4:8]))
+	p.mu.Lock()
 	e, ok := p.byKey[[2]uint64{gotIdx, uint64(cid)}]
+	p.mu.Unlock()
 	if !ok {
 		return -1
 	}
